@@ -1719,10 +1719,19 @@ def stream_guards(ctx, prs=None):
                     for fn in fns:
                         if fn == "matsumoto_fidelity" and out == "value" and not (exA and exB):
                             continue   # Matsumoto is only specified for full-rank states
-                        st, v = _call(T[fn], *args)
+                        # the two states by position, both by keyword, or the second by keyword (same verdict in every form)
+                        import inspect
+                        pn = list(inspect.signature(T[fn]).parameters)[:2]
+                        cform = ("positional", "keyword", "mixed")[(rd + order + len(fn)) % 3]
+                        if cform == "positional":
+                            st, v = _call(T[fn], *args)
+                        elif cform == "keyword":
+                            st, v = _call(T[fn], **{pn[0]: args[0], pn[1]: args[1]})
+                        else:
+                            st, v = _call(T[fn], args[0], **{pn[1]: args[1]})
                         cat = _category(st, v)
-                        desc = {"fn": fn, "stream": "guards", "spec": spec, "position": order, "n": n, "cplx": cplx, "mismatch": bool(mism), "A": A, "B": B}
-                        ctx.case(desc, True, f"guard/{fn}/{spec}{'/shape-mismatch' if mism else ''}/{out}")
+                        desc = {"fn": fn, "stream": "guards", "spec": spec, "position": order, "n": n, "cplx": cplx, "mismatch": bool(mism), "A": A, "B": B, "call_form": cform}
+                        ctx.case(desc, True, f"guard/{fn}/{spec}{'/shape-mismatch' if mism else ''}/{out}/{cform}")
                         if out != "value":
                             if not (st == "raise" and v.startswith("ValueError")):
                                 ctx.violation(f"{fn} accepts a non-density argument or a pair of different shapes ({spec}, position {order}{', shapes differ' if mism else ''}): returned {v!r}; the guard model says {out}",
